@@ -1156,11 +1156,11 @@ theorem stepCore_inv {s : HG} (h : SCInv s) (op : Op) : SCInv (stepCore s op).1 
   case removeSimplexIdsFrom es => exact removeSimplexIdsFrom_inv h es
   case close orders hh => exact close_inv h orders hh
   case cleanup a c r hh => exact cleanup_inv h a c r hh
-  case addEdge ms idx a hh => exact addSimplex_inv h ms idx a hh
-  case addEdgesFrom fmt items k a hh => exact addSimplicesFrom_inv h fmt items k a hh
-  case addWeightedEdgesFrom items k a hh => exact addWeightedSimplicesFrom_inv h items k a hh
-  case removeEdge e => exact removeSimplexId_inv s e h
-  case removeEdgesFrom es => exact removeSimplexIdsFrom_inv h es
+  case addEdge ms idx a hh => exact guardF_inv SCInv _ _ h (addSimplex_inv h ms idx a hh)
+  case addEdgesFrom fmt items k a hh => exact guardF_inv SCInv _ _ h (addSimplicesFrom_inv h fmt items k a hh)
+  case addWeightedEdgesFrom items k a hh => exact guardF_inv SCInv _ _ h (addWeightedSimplicesFrom_inv h items k a hh)
+  case removeEdge e => exact guardF_inv SCInv _ _ h (removeSimplexId_inv s e h)
+  case removeEdgesFrom es => exact guardF_inv SCInv _ _ h (removeSimplexIdsFrom_inv h es)
   case clear b => exact clear_scinv h b
   case clearEdges => exact clearEdges_scinv h
   case freeze => exact frozen_scinv h
